@@ -1,6 +1,7 @@
 package main
 
 import (
+	"runtime"
 	"bytes"
 	"context"
 	"fmt"
@@ -43,7 +44,18 @@ var solvers = []solverSpec{
 	}},
 }
 
+// procSlots bounds the number of solver processes running at once to the number of cores, so that a solver's
+// (wall-clock) time limit measures its own work and not the scheduler's: without it the short first attempts starve
+// when many obligations, sub-goals and raced solvers overlap.
+var procSlots = make(chan struct{}, max(2, runtime.NumCPU()))
+
 func runSolver(ctx context.Context, sp solverSpec, file string, timeoutS int, seed int) SolveResult {
+	select {
+	case procSlots <- struct{}{}:
+		defer func() { <-procSlots }()
+	case <-ctx.Done():
+		return SolveResult{Solver: sp.name, Status: "cancelled"}
+	}
 	args := sp.args(file, timeoutS, seed)
 	cctx, cancel := context.WithTimeout(ctx, time.Duration(timeoutS+2)*time.Second)
 	defer cancel()
@@ -55,7 +67,16 @@ func runSolver(ctx context.Context, sp solverSpec, file string, timeoutS int, se
 	err := cmd.Run()
 	el := time.Since(start).Seconds()
 	text := out.String()
-	first := strings.TrimSpace(strings.SplitN(text, "\n", 2)[0])
+	// the verdict is the first line that is not a warning (z3 prints pattern warnings before its answer)
+	first := ""
+	for _, ln := range strings.Split(text, "\n") {
+		ln = strings.TrimSpace(ln)
+		if ln == "" || strings.HasPrefix(ln, "WARNING:") {
+			continue
+		}
+		first = ln
+		break
+	}
 	res := SolveResult{Solver: sp.name, Seconds: el, Output: text}
 	switch first {
 	case "unsat", "sat", "unknown":
